@@ -535,6 +535,142 @@ def fmt_string(m, e):
     return None
 
 
+def analyse_flat_dumper(chk, m, fn, szarg, parg):
+    """A dump written as ONE loop over the byte index: proved by induction over the loop, for every size.
+    Shape required: i starts at 0, each iteration prints exactly the pair of byte p[i] and increments i by one, the loop
+    runs while i < size, nothing is printed after the loop, the function returns size.  Decided with BDDs over (i, size):
+    a newline follows byte i exactly when (i mod 16 == 15) or (i + 1 == size).  Returns True if the idiom applied."""
+    from ..domains.bdd import BDD, BV
+    from ..domains.bvexec import expr_bv, Top
+    heads = sorted(fn.loops_headers())
+    if len(heads) != 1:
+        return False
+    H = heads[0]
+    segs = [(s0, p) for s0, p in paths.enumerate_segments(fn, m) if p.end != "unreachable"]
+    entry = [p for s0, p in segs if s0 == fn.entry.name]
+    body = [p for s0, p in segs if s0 == H and p.end == "cut:" + H]
+    exits = [p for s0, p in segs if s0 == H and p.end == "ret"]
+    if len(entry) != 1 or not body or not exits or entry[0].end != "cut:" + H:
+        return False
+    car = entry[0].carried
+    ivars = [k for k, v in car.items() if v[0] == "c" and v[2] == 0]
+    if len(ivars) != 1 or len(car) != 1:
+        return False
+    iv = ("sym", ivars[0])
+    bits = car[ivars[0]][1]
+
+    def out_units(p):
+        u = []
+        for e in p.events:
+            if e.kind == "call" and isinstance(e.callee, str) and not e.callee.startswith("llvm."):
+                if e.callee == "fprintf":
+                    s_ = fmt_string(m, e.args[1])
+                    u.append(("pair", e) if s_ == "%c%c" else ("nl", e) if s_ == "\n" else ("other", e))
+                elif e.callee in paths.pure_functions(m):
+                    continue
+                else:
+                    u.append(("other", e))
+        return u
+    if out_units(entry[0]) or any(out_units(p) for p in exits):
+        return False
+    B = BDD()
+    bv = BV(B)
+    I = [B.var(2 * k) for k in range(bits)]
+    S = [B.var(2 * k + 1) for k in range(bits)]
+
+    def atom(x):
+        if x == iv:
+            return I
+        if x == ("arg", szarg):
+            return S
+        return None
+
+    def pc_of(p):
+        pc = 1
+        for c, taken, inst in p.conds:
+            if inst is not None and inst.op == "switch":
+                raise Top("switch")
+            v = expr_bv(c, bv, atom)
+            bit = 0
+            for x in v:
+                bit = B.OR(bit, x)
+            pc = B.AND(pc, bit if taken else B.NOT(bit))
+        return pc
+    name = fn.name
+    try:
+        inloop = bv.ult(I, S)
+        nl = 0
+        cover = 0
+        for p in body:
+            u = out_units(p)
+            kinds = [k for k, e in u]
+            pid = "%s segment %s" % (name, "->".join(b.lstrip("%") for b in p.blocks))[:140]
+            if kinds not in (["pair"], ["pair", "nl"]):
+                chk.ob("H4.flat-loop", pid, False, "an iteration prints %s: exactly one pair, optionally followed by a newline, is expected" % kinds,
+                       fn.loc, name)
+                return True
+            # the pair printed is byte p[i]
+            e = u[0][1]
+            lds = set(x for arg in (e.args[2], e.args[3]) for x in paths.subexprs(arg) if x[0] == "ld" and ptr_parts(x[1])[0][0] != "g")
+            want_ptr = paths.mkptr(("arg", parg), 0, ((iv, 1),))
+            okb = bool(lds) and all(x[1] == want_ptr and x[2] == 1 for x in lds)
+            digits_ok = okb
+            bad = None
+            if okb:
+                for v in range(256):
+                    env = paths.LazyEnv(m, {x: v for x in lds})
+                    try:
+                        a_, b_ = paths.eval_concrete(e.args[2], env) & 0xff, paths.eval_concrete(e.args[3], env) & 0xff
+                    except paths.NoValue:
+                        digits_ok = None
+                        break
+                    if (a_, b_) != (ord("0123456789abcdef"[v >> 4]), ord("0123456789abcdef"[v & 15])):
+                        digits_ok, bad = False, "byte 0x%02x is printed as %r%r" % (v, chr(a_), chr(b_))
+                        break
+            if digits_ok is None:
+                chk.unknown("H4.pair-order", pid, "printed characters not evaluable", fn.loc)
+            else:
+                chk.ob("H4.pair-order", pid, bool(digits_ok),
+                       "iteration i prints the two hex digits of byte p[i] for all 256 byte values" if digits_ok else
+                       "iteration i must print the two hex digits of p[i]: %s" % (bad or "the bytes read are not p[i]"), fn.loc, name)
+            # i advances by one
+            nxt = p.carried.get(ivars[0])
+            step_ok = nxt is not None and strip_casts(nxt) == ("b", "add", bits, iv, ("c", bits, 1))
+            chk.ob("H4.flat-loop", pid + " step", step_ok, "the index advances by exactly one per printed byte", fn.loc, name)
+            pc = pc_of(p)
+            cover = B.OR(cover, pc)
+            if kinds == ["pair", "nl"]:
+                nl = B.OR(nl, pc)
+        exit_pc = 0
+        for p in exits:
+            exit_pc = B.OR(exit_pc, pc_of(p))
+            r = p.ret
+            chk.ob("H4.returns-size", "%s exit" % name, r is not None and strip_casts(r) == ("arg", szarg),
+                   "returns the original size (got %s)" % fmt(r)[:40], p.ret_inst.loc, name)
+    except (Top, KeyError, IndexError, TypeError) as t:
+        chk.unknown("H4.flat-loop", name, "loop conditions outside the bit-vector fragment: %s" % t, fn.loc)
+        return True
+
+    def show(f):
+        a = B.sat_one(f) or {}
+        return "i=%d size=%d" % (sum((1 << k) for k in range(bits) if a.get(2 * k)), sum((1 << k) for k in range(bits) if a.get(2 * k + 1)))
+    # the loop continues exactly while i < size (so bytes 0..size-1 are printed, each once, in order)
+    bad = B.OR(B.AND(inloop, B.NOT(cover)), B.AND(B.NOT(inloop), cover))
+    bad2 = B.OR(B.AND(B.NOT(inloop), B.NOT(exit_pc)), B.AND(inloop, exit_pc))
+    chk.ob("H4.all-bytes-dumped", name, bad == 0 and bad2 == 0,
+           "an iteration runs exactly while i < size and the function returns exactly when i >= size (every size)" if bad == 0 and bad2 == 0
+           else "the loop does not run exactly while i < size, e.g. %s" % show(bad if bad != 0 else bad2), fn.loc, name)
+    low = bv.AND(I, bv.const(15, bits))
+    want = B.OR(bv.eq(low, bv.const(15, bits)), bv.eq(bv.add(I, bv.const(1, bits)), S))
+    bad = B.AND(inloop, B.XOR(B.AND(nl, inloop), B.AND(want, inloop)))
+    chk.ob("H4.newlines", name, bad == 0,
+           "a newline follows byte i exactly when i mod 16 == 15 or i is the last byte: lines of at most 16 pairs, the last line "
+           "terminated, no empty line (all i < size)" if bad == 0 else "newline placement differs from (i mod 16 == 15 or i + 1 == size) at %s" % show(bad),
+           fn.loc, name)
+    chk.ob("H4.line-limit", name, bad == 0, "at most 16 pairs per line (from the newline rule)", fn.loc, name)
+    return True
+
+
 def analyse_dumper(chk, m, fn, depth=0, top=True):
     """Check one function that dumps `size` bytes starting at `ptr` to a FILE*. Returns True if analysed."""
     chk.note_fn(fn)
@@ -544,6 +680,8 @@ def analyse_dumper(chk, m, fn, depth=0, top=True):
         chk.unknown("H4.dump-structure", fn.name, "not a (FILE*, bytes, size) dumper")
         return False
     szarg, parg = int_args[-1], ptr_args[0]
+    if top and analyse_flat_dumper(chk, m, fn, szarg, parg):
+        return True
     ps = paths.enumerate_paths(fn, m, loop_bound=2, max_paths=20000)
     n_checked = 0
     MAXSZ = 80
